@@ -1,143 +1,171 @@
 (* C37/Check.v — is an observed run (API calls in order, each with the AddMatch/RemoveMatch calls the bus saw while it
-   ran) a run of the model?  Breadth-first search over the schedules of C37/Model.v [step], every move being a
-   [Sched.apply_choice] (hence a [step]).  Executable only; no proofs.
+   ran) a run of the model of C37/Model.v under SOME schedule?  Executable only (two small lemmas tying the counter
+   arithmetic to Model.add_match / remove_match are in C37/Proofs.v).
 
-   Between items the states are compacted (the refcount function is tabulated over the finite universe of rules of
-   the case, finished futures are forgotten, the trace is cleared) and duplicates are merged (queued removals are
-   compared as a multiset). *)
+   The calls of a history are sequential, so what the foreground future does is determined: its atomic actions are
+   obtained by running [Model.exec] itself on a reference state ([item_actions]).  What is not determined is when the
+   queued removal tasks run in between.  Actions on different rules are independent (each touches one refcount entry
+   and emits events about that rule only), so the search is done rule by rule: for every rule, the set of possible
+   (refcount, number of queued removals) pairs is carried from item to item, and an item is explained iff for every
+   rule some interleaving of the foreground actions on that rule with its queued removals emits exactly the events
+   observed about it.  The relative order of events about DIFFERENT rules is not compared. *)
 From Coq Require Import List NArith Bool Arith.
 From ZV Require Import Base.Bytes C37.Model C37.Spec C37.Sched.
 Import ListNotations.
 
-Definition with_evs (c : conn) (es : list ev) : conn :=
-  {| subs := subs c; pend := pend c; held := held c; thr := thr c; evs := es |}.
+(* ---- what a foreground program does: derived from Model.exec on a reference state whose refcounts are all 5
+        (never vacant, never last) and whose queue is empty, by looking at what changed *)
+Inductive act := AAdd (r : rule) | ARem (r : rule) | AQueue (r : rule).
 
-Fixpoint lookup_nat (x : rule) (t : list (rule * nat)) : nat :=
-  match t with [] => 0 | (k, v) :: r => if lbeq x k then v else lookup_nat x r end.
+Definition ref_subs : rule -> nat := fun _ => 5.
+Definition ref_conn (hl : list (hid * rule)) : conn :=
+  {| subs := ref_subs; pend := []; held := hl; thr := []; evs := [] |}.
 
-Definition nonempty {A} (l : list A) : bool := match l with [] => false | _ => true end.
+Definition delta (U : list rule) (c : conn) : list act :=
+  flat_map (fun u => match subs c u with
+                     | 6 => [AAdd u]
+                     | 4 => [ARem u]
+                     | _ => []
+                     end) U
+  ++ map AQueue (pend c).
 
-Definition compact (U : list rule) (c : conn) : conn :=
-  let t := map (fun u => (u, subs c u)) U in
-  {| subs := fun x => lookup_nat x t; pend := pend c; held := held c; thr := filter nonempty (thr c); evs := [] |}.
-
-(* ---- equality of states over the universe U *)
-Definition instr_eqb (a b : instr) : bool :=
-  match a, b with
-  | ISub h r, ISub h2 r2 => (h =? h2)%N && lbeq r r2
-  | IAsyncDrop h, IAsyncDrop h2 => (h =? h2)%N
-  | IDrop h, IDrop h2 => (h =? h2)%N
-  | IClone a1 a2, IClone b1 b2 => (a1 =? b1)%N && (a2 =? b2)%N
-  | IOwnerCheck p r, IOwnerCheck p2 r2 => (p =? p2)%N && lbeq r r2
-  | IOwnerAdd p r, IOwnerAdd p2 r2 => (p =? p2)%N && lbeq r r2
-  | IOwnerSet p r, IOwnerSet p2 r2 => (p =? p2)%N && lbeq r r2
-  | ILeak r, ILeak r2 => lbeq r r2
-  | _, _ => false
-  end.
-
-Fixpoint list_eqb {A} (f : A -> A -> bool) (a b : list A) : bool :=
-  match a, b with
-  | [], [] => true
-  | x :: r, y :: s => f x y && list_eqb f r s
-  | _, _ => false
-  end.
-
-Definition conn_eqb (U : list rule) (a b : conn) : bool :=
-  forallb (fun u => (subs a u =? subs b u) && (count_rule u (pend a) =? count_rule u (pend b))) U
-  && (List.length (pend a) =? List.length (pend b))
-  && list_eqb (fun x y => (fst x =? fst y)%N && lbeq (snd x) (snd y)) (held a) (held b)
-  && list_eqb (list_eqb instr_eqb) (thr a) (thr b).
-
-(* ---- search nodes: a state and the events of the current item still to be matched *)
-Definition node := (conn * list ev)%type.
-Definition node_eqb (U : list rule) (a b : node) : bool :=
-  (List.length (snd a) =? List.length (snd b)) && conn_eqb U (fst a) (fst b).
-
-Fixpoint insert_node (U : list rule) (n : node) (l : list node) : list node :=
-  match l with
-  | [] => [n]
-  | m :: r => if node_eqb U n m then l else m :: insert_node U n r
-  end.
-Definition merge_nodes (U : list rule) (news acc : list node) : list node :=
-  fold_left (fun a n => insert_node U n a) news acc.
-
-Definition ev_eqb (a b : ev) : bool :=
-  match a, b with EAdd r, EAdd s | ERem r, ERem s => lbeq r s | _, _ => false end.
-
-(* one move; the trace of the state is empty before it, so [evs] afterwards is exactly what the move emitted *)
-Definition move (ch : choice) (n : node) : list node :=
-  match apply_choice any_op ch (fst n) with
-  | None => []
-  | Some c' =>
-      match evs c', snd n with
-      | [], todo => [(c', todo)]
-      | [e], x :: todo => if ev_eqb e x then [(with_evs c' [], todo)] else []
-      | _, _ => []
-      end
-  end.
-
-(* indexes of the futures that can move; first index of each distinct queued rule *)
-Fixpoint thread_moves (k : nat) (t : list prog) : list choice :=
-  match t with
-  | [] => []
-  | p :: r => (if nonempty p then [CThread k] else []) ++ thread_moves (S k) r
-  end.
-Fixpoint pend_moves (k : nat) (seen : list rule) (p : list rule) : list choice :=
+Fixpoint prog_actions (fuel : nat) (U : list rule) (hl : list (hid * rule)) (p : prog)
+  : option (list act * list (hid * rule)) :=
   match p with
-  | [] => []
-  | r :: t => if mem_rule r seen then pend_moves (S k) seen t else CPend k :: pend_moves (S k) (r :: seen) t
-  end.
-
-Definition expand (n : node) : list node :=
-  flat_map (fun ch => move ch n) (thread_moves 0 (thr (fst n)) ++ pend_moves 0 [] (pend (fst n))).
-
-Definition terminal (it : item) (n : node) : bool :=
-  negb (existsb nonempty (thr (fst n))) && negb (nonempty (snd n)) &&
-  match it with IIdle => negb (nonempty (pend (fst n))) | _ => true end.
-
-Fixpoint bfs (fuel : nat) (U : list rule) (it : item) (frontier acc : list node) : option (list node) :=
-  match frontier with
-  | [] => Some acc
-  | _ =>
+  | [] => Some ([], hl)
+  | i :: rest =>
       match fuel with
       | O => None
       | S f =>
-          let acc' := merge_nodes U (map (fun n => (compact U (fst n), [])) (filter (terminal it) frontier)) acc in
-          bfs f U it (merge_nodes U (flat_map expand frontier) []) acc'
+          let '(c', p') := exec i rest (ref_conn hl) in
+          match prog_actions f U (held c') p' with
+          | Some (a, hl') => Some (delta U c' ++ a, hl')
+          | None => None
+          end
       end
   end.
 
-Definition spawn (o : op) (c : conn) : conn := with_thr c (thr c ++ [prog_of o]).
-Definition start_item (it : item) (c : conn) : conn :=
+Definition op_actions (U : list rule) (hl : list (hid * rule)) (o : op) : option (list act * list (hid * rule)) :=
+  prog_actions (4 * (List.length hl + 4)) U hl (prog_of o).
+
+Definition item_actions (U : list rule) (hl : list (hid * rule)) (it : item) : option (list act * list (hid * rule)) :=
   match it with
-  | IOp o => spawn o c
-  | IOp2 o1 o2 => spawn o2 (spawn o1 c)
-  | ITick | IIdle => c
+  | IOp o => op_actions U hl o
+  | IOp2 o1 o2 =>
+      match op_actions U hl o1 with
+      | Some (a1, hl1) => match op_actions U hl1 o2 with
+                          | Some (a2, hl2) => Some (a1 ++ a2, hl2)
+                          | None => None
+                          end
+      | None => None
+      end
+  | ITick | IIdle => Some ([], hl)
   end.
 
-Definition weight (c : conn) : nat :=
-  List.length (held c) + List.length (pend c) + fold_left (fun a p => a + List.length p) (thr c) 0.
-
-(* all states the model can be in after the item, given the states before it and the events observed during it *)
-Definition after_item (U : list rule) (it : item) (new : list ev) (states : list conn) : option (list conn) :=
-  let starts := map (fun c => (start_item it c, new)) states in
-  let fuel := fold_left (fun a n => Nat.max a (weight (fst n))) starts 0 in
-  match bfs (6 * fuel + 12) U it starts [] with
-  | None => None
-  | Some nodes => Some (map fst nodes)
+(* the harness does not tick the executor during drop() and clone(): no queued removal can run meanwhile *)
+Definition pend_may_run (it : item) : bool :=
+  match it with
+  | IOp (ODrop _) | IOp (OClone _ _) => false
+  | _ => true
   end.
+
+(* ---- one rule *)
+Inductive pact := PAdd | PRem | PQueue.
+Definition project (r : rule) (a : act) : list pact :=
+  match a with
+  | AAdd x => if lbeq x r then [PAdd] else []
+  | ARem x => if lbeq x r then [PRem] else []
+  | AQueue x => if lbeq x r then [PQueue] else []
+  end.
+Inductive pev := VAdd | VRem.
+Definition project_ev (r : rule) (e : ev) : list pev :=
+  match e with
+  | EAdd x => if lbeq x r then [VAdd] else []
+  | ERem x => if lbeq x r then [VRem] else []
+  end.
+
+(* the refcount arithmetic of add_match / remove_match on one entry: new count, and whether the bus is called
+   (for a signal rule) *)
+Definition add1 (c : nat) : nat * bool := match c with O => (1, true) | S n => (S (S n), false) end.
+Definition rem1 (c : nat) : nat * bool := match c with O => (0, false) | S O => (0, true) | S (S n) => (S n, false) end.
+
+Definition pstate := (nat * nat)%type.          (* refcount, queued removals *)
+Definition pstate_eqb (a b : pstate) : bool := (fst a =? fst b) && (snd a =? snd b).
+Fixpoint insert_ps (x : pstate) (l : list pstate) : list pstate :=
+  match l with [] => [x] | y :: r => if pstate_eqb x y then l else y :: insert_ps x r end.
+Definition union_ps (a b : list pstate) : list pstate := fold_left (fun acc x => insert_ps x acc) a b.
+
+(* consume the expected event if the action calls the bus *)
+Definition emit (sig calls : bool) (want : pev) (evs : list pev) : option (list pev) :=
+  if sig && calls then
+    match evs, want with
+    | VAdd :: r, VAdd => Some r
+    | VRem :: r, VRem => Some r
+    | _, _ => None
+    end
+  else Some evs.
+
+Fixpoint interleave (fuel : nat) (sig may_pend idle : bool) (acts : list pact) (evs : list pev) (s : pstate) : list pstate :=
+  match fuel with
+  | O => []
+  | S f =>
+      let '(c, p) := s in
+      let done :=
+        match acts, evs with
+        | [], [] => if idle && negb (p =? 0) then [] else [s]
+        | _, _ => []
+        end in
+      let fg :=
+        match acts with
+        | [] => []
+        | PAdd :: rest =>
+            let '(c', calls) := add1 c in
+            match emit sig calls VAdd evs with Some e' => interleave f sig may_pend idle rest e' (c', p) | None => [] end
+        | PRem :: rest =>
+            let '(c', calls) := rem1 c in
+            match emit sig calls VRem evs with Some e' => interleave f sig may_pend idle rest e' (c', p) | None => [] end
+        | PQueue :: rest => interleave f sig may_pend idle rest evs (c, S p)
+        end in
+      let bg :=
+        match p with
+        | S p' =>
+            if may_pend then
+              let '(c', calls) := rem1 c in
+              match emit sig calls VRem evs with Some e' => interleave f sig may_pend idle acts e' (c', p') | None => [] end
+            else []
+        | O => []
+        end in
+      union_ps (union_ps done fg) bg
+  end.
+
+Definition rule_after (r : rule) (it : item) (acts : list act) (new : list ev) (states : list pstate) : list pstate :=
+  let pa := flat_map (project r) acts in
+  let pe := flat_map (project_ev r) new in
+  let idle := match it with IIdle => true | _ => false end in
+  fold_left (fun acc s =>
+               let fuel := 2 * (List.length pa + snd s + List.length pe) + 4 in
+               union_ps acc (interleave fuel (is_sig r) (pend_may_run it) idle pa pe s))
+            states [].
 
 Inductive verdict := Accepts | RejectsAt (k : N) | OutOfFuel (k : N).
 
-Fixpoint check_from (k : N) (U : list rule) (states : list conn) (run : list (item * list ev)) : verdict :=
+(* every observed event must be about a rule of the universe *)
+Definition events_known (U : list rule) (new : list ev) : bool := forallb (fun e => mem_rule (ev_rule e) U) new.
+
+Fixpoint check_from (k : N) (U : list rule) (hl : list (hid * rule)) (states : list (list pstate))
+  (run : list (item * list ev)) : verdict :=
   match run with
   | [] => Accepts
-  | (it, new) :: r =>
-      match after_item U it new states with
+  | (it, new) :: rest =>
+      match item_actions U hl it with
       | None => OutOfFuel k
-      | Some [] => RejectsAt k
-      | Some st' => check_from (k + 1) U st' r
+      | Some (acts, hl') =>
+          let states' := map (fun rs => rule_after (fst rs) it acts new (snd rs)) (combine U states) in
+          if events_known U new && forallb (fun l => match l with [] => false | _ => true end) states'
+          then check_from (k + 1) U hl' states' rest
+          else RejectsAt k
       end
   end.
 
-Definition check (U : list rule) (run : list (item * list ev)) : verdict := check_from 1 U [compact U init] run.
+Definition check (U : list rule) (run : list (item * list ev)) : verdict :=
+  check_from 1 U [] (map (fun _ => [(0, 0)]) U) run.
